@@ -6,7 +6,8 @@
 From Coq Require Import ZArith List String Bool Permutation.
 From Model Require Import PyBase PyHash Graph Morgan Writer Compose RxnSmiles CgrMorgan CgrWriter RxnCache.
 From Gen Require CgrTables.
-From Proofs Require Import WriterInvProofs ComposeProofs RxnComposeProofs RxnSmilesProofs RxnCxProofs RxnEqProofs RxnCacheProofs CgrMorganProofs CgrMorganOrderProofs CgrWriterProofs CgrTablesProofs.
+From Gen Require Import ComposeGen RxnFormatGen CgrTokensGen RxnComposeGen RxnCacheGen UnionGen.
+From Proofs Require Import WriterInvProofs ComposeProofs RxnComposeProofs RxnSmilesProofs RxnCxProofs RxnEqProofs RxnCacheProofs CgrMorganProofs CgrMorganOrderProofs CgrWriterProofs CgrTablesProofs ComposeGenTie RxnFormatGenTie CgrTokensGenTie RxnComposeGenTie RxnCacheGenTie UnionGenTie.
 Import ListNotations.
 Open Scope Z_scope.
 
@@ -511,3 +512,203 @@ Theorem C15_dyn_charge_str_faithful : forall i j i' j',
   exists s, dyn_charge_str i j = Some s /\ (has_gt s = negb (i =? j)) /\ (dyn_charge_str i' j' = Some s -> i = i' /\ j = j').
 Proof. exact dyn_charge_str_faithful. Qed.
 Print Assumptions C15_dyn_charge_str_faithful.
+
+(* ---- TIE BY TRANSLATION: the bodies below are REGENERATED from /repo's source on every run (tools/gen_compose.py ->
+   Gen.ComposeGen, statement by statement, fail closed) and proved equal to the hand-written model the theorems above are about.
+   g_compose_ord ord1 ord2 ord3 takes the iteration orders of the sets in SOURCE order: common, self-only, other-only. ---- *)
+(* DynamicElement.from_atom / from_atoms / is_dynamic, DynamicBond.from_bond / is_dynamic *)
+Theorem C15_src_from_atom : forall a, g_from_atom a = from_atom a.
+Proof. exact g_from_atom_eq. Qed.
+Print Assumptions C15_src_from_atom.
+Theorem C15_src_from_atoms : forall a b, g_from_atoms a b = from_atoms a b.
+Proof. exact g_from_atoms_eq. Qed.
+Print Assumptions C15_src_from_atoms.
+Theorem C15_src_from_bond : forall b, g_from_bond b = from_bond b.
+Proof. exact g_from_bond_eq. Qed.
+Print Assumptions C15_src_from_bond.
+Theorem C15_src_datom_is_dynamic : forall a, g_datom_is_dynamic a = datom_dynamic a.
+Proof. exact g_datom_is_dynamic_eq. Qed.
+Print Assumptions C15_src_datom_is_dynamic.
+Theorem C15_src_dbond_is_dynamic : forall b, g_dbond_is_dynamic b = dbond_dynamic b.
+Proof. exact g_dbond_is_dynamic_eq. Qed.
+Print Assumptions C15_src_dbond_is_dynamic.
+
+(* DynamicBond.__init__ (not modelled by hand: "unreachable inside compose"): its whole validation, for ALL argument pairs,
+   and the fact that the three call sites inside compose never trip it on orders a Bond can carry *)
+Theorem C15_src_dbond_init_spec : forall o p,
+  g_dbond_init o p = match o, p with
+                     | None, None => Err TypeError
+                     | _, _ => if order_valid o && order_valid p then Ok (mkDBond o p) else Err ValueError
+                     end.
+Proof. exact g_dbond_init_spec. Qed.
+Print Assumptions C15_src_dbond_init_spec.
+Theorem C15_src_dbond_init_call_sites : forall z w, bond_order_ok z -> bond_order_ok w ->
+  g_dbond_init (Some z) None = Ok (mkDBond (Some z) None) /\ g_dbond_init None (Some z) = Ok (mkDBond None (Some z)) /\ g_dbond_init (Some z) (Some w) = Ok (mkDBond (Some z) (Some w)).
+Proof. exact g_dbond_init_call_sites. Qed.
+Print Assumptions C15_src_dbond_init_call_sites.
+
+(* CGRContainer.center_atoms (set comprehension + set.update) on a condensed graph with duplicate-free keys *)
+Theorem C15_src_center_atoms : forall h, NoDup (keys (c_atoms h)) -> NoDup (keys (c_adj h)) -> g_center_atoms h = center_atoms h.
+Proof. exact g_center_atoms_eq. Qed.
+Print Assumptions C15_src_center_atoms.
+
+(* the three set expressions compose iterates: "ord_i is an iteration order of the i-th set of the SOURCE" is orders_ok *)
+Theorem C15_src_orders_ok : forall r p o1 o2 o3, g_orders_ok r p o3 o1 o2 <-> orders_ok r p o1 o2 o3.
+Proof. exact g_orders_ok_iff. Qed.
+Print Assumptions C15_src_orders_ok.
+
+(* the whole body of MoleculeContainer.compose: the locals (bonds, adj, ha, hb) at `return h` and the returned graph *)
+Theorem C15_src_compose_state : forall r p o1 o2 o3,
+  wf_mol r = true -> wf_mol p = true -> orders_ok r p o1 o2 o3 ->
+  g_compose_state o3 o1 o2 r p =
+  match compose_trace o1 o2 o3 r p with
+  | Ok (ha, bs, adjd) => Ok (bs, adjd, ha, fold_left assign bs (map0 ha))
+  | Err e => Err e
+  end.
+Proof. exact g_compose_state_eq. Qed.
+Print Assumptions C15_src_compose_state.
+Theorem C15_src_compose : forall r p o1 o2 o3,
+  wf_mol r = true -> wf_mol p = true -> orders_ok r p o1 o2 o3 ->
+  g_compose_ord o3 o1 o2 r p = compose_ord o1 o2 o3 r p.
+Proof. exact g_compose_ord_eq. Qed.
+Print Assumptions C15_src_compose.
+
+(* the property itself, stated about the translated source only (translated compose, translated is_dynamic, translated
+   center_atoms, translated set expressions): exact content, dynamic marks, reaction centre, identical sides *)
+Theorem C15_src_compose_lookup : forall r p oc o1 o2 h,
+  wf_mol r = true -> wf_mol p = true -> g_orders_ok r p oc o1 o2 -> g_compose_ord oc o1 o2 r p = Ok h ->
+  keys (c_atoms h) = o1 ++ o2 ++ oc /\ keys (c_adj h) = o1 ++ o2 ++ oc /\ (forall n, catom h n = spec_atom r p n) /\ (forall n m, cbond h n m = spec_bond r p n m).
+Proof. exact g_compose_lookup. Qed.
+Print Assumptions C15_src_compose_lookup.
+Theorem C15_src_compose_dynamic_iff : forall r p oc o1 o2 h,
+  wf_mol r = true -> wf_mol p = true -> g_orders_ok r p oc o1 o2 -> g_compose_ord oc o1 o2 r p = Ok h ->
+  (forall n m, (exists b, cbond h n m = Some b /\ g_dbond_is_dynamic b = true) <->
+               ord_in r n m <> ord_in p n m /\ (is_common r p n = true \/ is_common r p m = true)) /\
+  (forall n, (exists a, catom h n = Some a /\ g_datom_is_dynamic a = true) <->
+             exists a b, atom_of r n = Some a /\ atom_of p n = Some b /\ (a_chg a <> a_chg b \/ a_rad a <> a_rad b)) /\
+  (forall n, In n (g_center_atoms h) <->
+             (exists a, catom h n = Some a /\ g_datom_is_dynamic a = true) \/
+             exists m b, cbond h n m = Some b /\ g_dbond_is_dynamic b = true).
+Proof. exact g_compose_dynamic_iff. Qed.
+Print Assumptions C15_src_compose_dynamic_iff.
+Theorem C15_src_compose_identity_no_center : forall g oc o1 o2,
+  wf_mol g = true -> g_orders_ok g g oc o1 o2 ->
+  exists h, g_compose_ord oc o1 o2 g g = Ok h /\ g_center_atoms h = [] /\
+            (forall n a, catom h n = Some a -> g_datom_is_dynamic a = false) /\
+            (forall n m b, cbond h n m = Some b -> g_dbond_is_dynamic b = false).
+Proof. exact g_compose_identity_no_center. Qed.
+Print Assumptions C15_src_compose_identity_no_center.
+Theorem C15_src_compose_example :
+  g_orders_ok example_r example_p [1; 2; 3] [] [] /\
+  exists h, g_compose_ord [1; 2; 3] [] [] example_r example_p = Ok h /\ compose example_r example_p = Ok h /\
+            list_eqb Z.eqb (g_center_atoms h) [3; 1; 2] = true /\
+            g_dbond_init (Some 2) (Some 1) = Ok (mkDBond (Some 2) (Some 1)) /\ g_dbond_init None None = Err TypeError /\
+            g_dbond_init (Some 5) None = Err ValueError.
+Proof. exact g_compose_example. Qed.
+Print Assumptions C15_src_compose_example.
+
+(* the whole body of ReactionContainer.__format__ (tools/gen_rxnformat.py -> Gen.RxnFormatGen: both loops, the sort with its key,
+   the CX block with its three tests, the two flags) is the hand-written rxn_format, for ALL lists of written molecules *)
+Theorem C15_src_rxn_format : forall has_c has_x rs gs ps, g_rxn_format has_c has_x rs gs ps = rxn_format has_c has_x rs gs ps.
+Proof. exact g_rxn_format_eq. Qed.
+Print Assumptions C15_src_rxn_format.
+Theorem C15_src_rxn_string_role_order_free : forall has_x rs rs' gs gs' ps ps',
+  Permutation rs rs' -> Permutation gs gs' -> Permutation ps ps' -> ncomp_det rs -> ncomp_det gs -> ncomp_det ps ->
+  g_rxn_format false has_x rs gs ps = g_rxn_format false has_x rs' gs' ps'.
+Proof. exact g_rxn_string_role_order_free. Qed.
+Print Assumptions C15_src_rxn_string_role_order_free.
+Theorem C15_src_rxn_format_example :
+  g_rxn_format false false [mkF "[CH3]" 1 [true]; mkF "C" 1 [false]] [] [mkF "[Na+].[Cl-]" 2 [false; false]] = "C.[CH3]>>[Na+].[Cl-] |^1:1,f:2.3|"%string /\
+  g_rxn_format true true [mkF "[CH3]" 1 [true]; mkF "C" 1 [false]] [] [mkF "[Na+].[Cl-]" 2 [false; false]] = "[CH3].C>>[Na+].[Cl-]"%string.
+Proof. exact g_rxn_format_example. Qed.
+Print Assumptions C15_src_rxn_format_example.
+
+(* the token functions of the condensed-graph writer, CGRSmiles._format_atom / _format_bond (tools/gen_cgrtokens.py ->
+   Gen.CgrTokensGen), are the hand-written cgr_atom_str / cgr_bond_str that the string theorems above use, for ALL dynamic atoms,
+   bonds and symbols; organic_set is the regenerated Gen.CgrTables.src_organic_set, str(isotope) appears iff the isotope is truthy *)
+Theorem C15_src_format_atom : forall symbol a,
+  g_format_atom symbol a = cgr_atom_str symbol (smem symbol CgrTables.src_organic_set) (iso_text a) a.
+Proof. exact g_format_atom_eq. Qed.
+Print Assumptions C15_src_format_atom.
+Theorem C15_src_format_bond : forall b, g_format_bond b = cgr_bond_str b.
+Proof. exact g_format_bond_eq. Qed.
+Print Assumptions C15_src_format_bond.
+Theorem C15_src_format_atom_example :
+  g_format_atom "C" (mkDAtom 6 (Some 13) 0 false (-1) true) = Some "[13C0>-^>*]"%string /\
+  g_format_atom "C" (mkDAtom 6 None 0 false 0 false) = Some "C"%string /\ g_format_atom "Fe" (mkDAtom 26 None 5 false 0 false) = None /\
+  g_format_bond (mkDBond (Some 2) None) = Some "[=>.]"%string.
+Proof. exact g_format_atom_example. Qed.
+Print Assumptions C15_src_format_atom_example.
+
+(* the body of ReactionContainer.compose (= ~reaction; tools/gen_rxncompose.py -> Gen.RxnComposeGen: reagents + reactants, the two
+   empty-side fallbacks, reduce(or_, ...), r ^ p with `^` = the TRANSLATED MoleculeContainer.compose; __invert__, __xor__, __or__ and
+   MoleculeContainer.union are checked to be the one-line delegations; Graph.union itself stays the hand-written union_remap) *)
+Theorem C15_src_rxn_compose_unfold : forall oc o1 o2 rs gs ps,
+  g_rxn_compose_ord oc o1 o2 rs gs ps = g_compose_ord oc o1 o2 (union_all (gs ++ rs)) (union_all ps).
+Proof. exact g_rxn_compose_unfold. Qed.
+Print Assumptions C15_src_rxn_compose_unfold.
+Theorem C15_src_rxn_compose : forall rs gs ps o1 o2 o3,
+  wf_mol (union_all (gs ++ rs)) = true -> wf_mol (union_all ps) = true ->
+  orders_ok (union_all (gs ++ rs)) (union_all ps) o1 o2 o3 ->
+  g_rxn_compose_ord o3 o1 o2 rs gs ps = rxn_compose_ord o1 o2 o3 rs gs ps.
+Proof. exact g_rxn_compose_eq. Qed.
+Print Assumptions C15_src_rxn_compose.
+Theorem C15_src_rxn_compose_mapped : forall rs gs ps o1 o2 o3, mapped_reaction rs gs ps ->
+  orders_ok (left_side rs gs) (right_side ps) o1 o2 o3 ->
+  g_rxn_compose_ord o3 o1 o2 rs gs ps = compose_ord o1 o2 o3 (left_side rs gs) (right_side ps).
+Proof. exact g_rxn_compose_mapped. Qed.
+Print Assumptions C15_src_rxn_compose_mapped.
+
+(* the in-place standardisation methods of a reaction (chython/algorithms/standardize/reaction.py; tools/gen_rxncache.py ->
+   Gen.RxnCacheGen): returned flag / count and the reaction-level cache cell afterwards, for ALL lists of molecule-level results *)
+Theorem C15_src_thiele : forall (V : Type) results (cell : option V), g_thiele results cell = (flag_any results, flush_if (flag_any results) cell).
+Proof. exact @g_thiele_eq. Qed.
+Print Assumptions C15_src_thiele.
+Theorem C15_src_kekule : forall (V : Type) results (cell : option V), g_kekule results cell = (flag_any results, flush_if (flag_any results) cell).
+Proof. exact @g_kekule_eq. Qed.
+Print Assumptions C15_src_kekule.
+Theorem C15_src_clean_isotopes : forall (V : Type) results (cell : option V),
+  g_clean_isotopes results cell = (flag_any results, flush_if (flag_any results) cell).
+Proof. exact @g_clean_isotopes_eq. Qed.
+Print Assumptions C15_src_clean_isotopes.
+Theorem C15_src_implicify_hydrogens : forall (V : Type) counts (cell : option V),
+  g_implicify_hydrogens counts cell = (fold_left Z.add counts 0, flush_if (flag_count counts) cell).
+Proof. exact @g_implicify_hydrogens_eq. Qed.
+Print Assumptions C15_src_implicify_hydrogens.
+Theorem C15_src_clean_stereo : forall (V : Type) results (cell : option V), g_clean_stereo results cell = (tt, None).
+Proof. exact @g_clean_stereo_eq. Qed.
+Print Assumptions C15_src_clean_stereo.
+(* the cache clause about the translated methods *)
+Theorem C15_src_cache_coherent : forall (V : Type) results (cell : option V) (old new : V),
+  (cell = None \/ cell = Some old) -> ((forall r, In r results -> r = false) -> new = old) ->
+  fst (cached_read (snd (g_thiele results cell)) new) = new /\
+  fst (cached_read (snd (g_kekule results cell)) new) = new /\
+  fst (cached_read (snd (g_clean_isotopes results cell)) new) = new /\
+  (forall us, fst (cached_read (snd (g_clean_stereo us cell)) new) = new).
+Proof. exact @g_cache_coherent. Qed.
+Print Assumptions C15_src_cache_coherent.
+Theorem C15_src_cache_coherent_count : forall (V : Type) counts (cell : option V) (old new : V),
+  Forall (fun n => 0 <= n) counts -> (cell = None \/ cell = Some old) -> (Forall (fun n => n = 0) counts -> new = old) ->
+  fst (cached_read (snd (g_implicify_hydrogens counts cell)) new) = new.
+Proof. exact @g_cache_coherent_count. Qed.
+Print Assumptions C15_src_cache_coherent_count.
+Theorem C15_src_cache_example :
+  g_thiele [true; false] (Some 1) = (true, None) /\ g_thiele [false; false] (Some 1) = (false, Some 1) /\
+  g_implicify_hydrogens [0; 2; 0] (Some 1) = (2, None) /\ g_implicify_hydrogens [0; 0] (Some 1) = (0, Some 1).
+Proof. exact g_cache_example. Qed.
+Print Assumptions C15_src_cache_example.
+
+(* the body of Graph.union as called by `|` (remap=True, copy=True; tools/gen_union.py -> Gen.UnionGen: collision test, new numbers
+   max(self) + 1 ... in the atom order of other, the two dict updates) is the union_remap that ReactionContainer.compose folds over
+   its molecules, for all pairs with duplicate-free, non-negative atom numbers (Graph.copy and Graph.remap are primitives of the
+   translation: same dicts / renaming by mapping.get(n, n)) *)
+Theorem C15_src_union : forall a b, NoDup (ids b) -> (forall n, In n (ids a) -> 0 <= n) -> g_union a b = Ok (union_remap a b).
+Proof. exact g_union_eq. Qed.
+Print Assumptions C15_src_union.
+Theorem C15_src_union_example :
+  g_union (mkMol [(1, mkAtom 6 None 0 false None None); (2, mkAtom 8 None 0 false None None)] [(1, [(2, mkBond 1 None)]); (2, [(1, mkBond 1 None)])])
+          (mkMol [(2, mkAtom 7 None 0 false None None)] [(2, [])]) =
+  Ok (mkMol [(1, mkAtom 6 None 0 false None None); (2, mkAtom 8 None 0 false None None); (3, mkAtom 7 None 0 false None None)]
+            [(1, [(2, mkBond 1 None)]); (2, [(1, mkBond 1 None)]); (3, [])]).
+Proof. exact g_union_example. Qed.
+Print Assumptions C15_src_union_example.
